@@ -3,7 +3,7 @@
    Executable definitions only. *)
 From Coq Require Import List ZArith Bool.
 Import ListNotations.
-Open Scope Z_scope.
+Local Open Scope Z_scope.
 
 (* The `for _, offset := range offsets` loop of DefaultCleaner, with its early `return 0`. *)
 Fixpoint default_loop (offsets : list Z) (lowest : Z) (active : bool) : Z :=
